@@ -81,8 +81,13 @@ extern "C" int harness_main() {
     // a representative first session: every padding case (name lengths 1..5), an overwritten entry, an empty list, a dead output
     static const Rec kSeq[][4] = { { {0, 1, 1 | 4}, {1, 2, 2}, {0, 3, 8}, {3, 1, 1} },
                                    { {2, 1, 0}, {1, 2, 4 | 8}, {2, 2, 2}, {1, 2, 4 | 8} },
-                                   { {3, 1, 15}, {0, 2, 1}, {1, 1, 1}, {2, 3, 1 | 2} } };
-    int seq = verif_choice("sequence", VERIF_SEQS);
+                                   { {3, 1, 15}, {0, 2, 1}, {1, 1, 1}, {2, 3, 1 | 2} },
+                                   // the same output recorded again with the same dependencies and an OLDER mtime (the output was restored from a cache), then once more unchanged
+                                   { {1, 5, 1 | 2}, {1, 3, 1 | 2}, {2, 2, 4}, {1, 3, 1 | 2} } };
+#ifndef SEQ_BASE
+#define SEQ_BASE 0
+#endif
+    int seq = SEQ_BASE + verif_choice("sequence", VERIF_SEQS);
     int n = (int)verif_nondet("records", 1, VERIF_MAXREC);
 #else
     int n = (int)verif_nondet("records", 1, VERIF_RECORDS);
